@@ -8,29 +8,29 @@ import (
 	"cosmossdk.io/math"
 	sdk "github.com/cosmos/cosmos-sdk/types"
 	ammtypes "github.com/elys-network/elys/x/amm/types"
+	atypes "github.com/elys-network/elys/x/assetprofile/types"
 	burnerkeeper "github.com/elys-network/elys/x/burner/keeper"
 	burnertypes "github.com/elys-network/elys/x/burner/types"
 	cmkeeper "github.com/elys-network/elys/x/commitment/keeper"
+	ctypes "github.com/elys-network/elys/x/commitment/types"
 	eskeeper "github.com/elys-network/elys/x/estaking/keeper"
 	estypes "github.com/elys-network/elys/x/estaking/types"
-	oraclekeeper "github.com/elys-network/elys/x/oracle/keeper"
-	perpkeeper "github.com/elys-network/elys/x/perpetual/keeper"
-	sskeeper "github.com/elys-network/elys/x/stablestake/keeper"
-	atypes "github.com/elys-network/elys/x/assetprofile/types"
-	ctypes "github.com/elys-network/elys/x/commitment/types"
 	llpkeeper "github.com/elys-network/elys/x/leveragelp/keeper"
 	llptypes "github.com/elys-network/elys/x/leveragelp/types"
 	mckeeper "github.com/elys-network/elys/x/masterchef/keeper"
 	mctypes "github.com/elys-network/elys/x/masterchef/types"
+	oraclekeeper "github.com/elys-network/elys/x/oracle/keeper"
 	oracletypes "github.com/elys-network/elys/x/oracle/types"
+	perpkeeper "github.com/elys-network/elys/x/perpetual/keeper"
 	perptypes "github.com/elys-network/elys/x/perpetual/types"
+	sskeeper "github.com/elys-network/elys/x/stablestake/keeper"
 	sstypes "github.com/elys-network/elys/x/stablestake/types"
 	tkkeeper "github.com/elys-network/elys/x/tokenomics/keeper"
 	tktypes "github.com/elys-network/elys/x/tokenomics/types"
 )
 
-func Dec(s string) math.LegacyDec { return math.LegacyMustNewDecFromStr(s) }
-func I(v int64) math.Int          { return math.NewInt(v) }
+func Dec(s string) math.LegacyDec  { return math.LegacyMustNewDecFromStr(s) }
+func I(v int64) math.Int           { return math.NewInt(v) }
 func C(d string, v int64) sdk.Coin { return sdk.NewInt64Coin(d, v) }
 
 // FeedTx is the feeder's MsgFeedMultiplePrices with the environment's current prices.
